@@ -1478,7 +1478,13 @@ func runL2History(g *gen, prof l2profile, nops int, stats map[string]int) (strin
 						v.tag = 'B'
 					}
 				}
-				op.cons = append(op.cons, scon{op: []string{"eq", "lt", "le", "ge", "gt"}[g.r.Intn(5)], v: v})
+				cop := []string{"eq", "lt", "le", "ge", "gt"}[g.r.Intn(5)]
+				if cop == "eq" && g.r.Intn(3) == 0 {
+					// the numerically equal operand of the other storage class (WHERE k = 3.0 for the
+					// key 3): the row is found, and its key comes back as it was stored
+					v = twin(v)
+				}
+				op.cons = append(op.cons, scon{op: cop, v: v})
 			}
 			if g.r.Intn(3) == 0 {
 				// several bounds on the same side, strict and non-strict mixed, at keys that exist:
@@ -1836,6 +1842,16 @@ func runL2(seed int64, n int, dir string, profName string) error {
 		fmt.Fprintf(iw, "%d %s\n", n+1, probeInvalidText())
 		stats["probe_invalid_text"]++
 	}
+	if profName == "multi" {
+		fmt.Fprintf(cw, "%d probe write-times-before-1970\n", n+3)
+		fmt.Fprintf(iw, "%d %s\n", n+3, probeBackdated())
+		stats["probe_backdated"]++
+	}
+	if profName == "changes" {
+		fmt.Fprintf(cw, "%d probe changes-table-follows-the-current-version\n", n+1)
+		fmt.Fprintf(iw, "%d %s\n", n+1, probeChangesFollowsCurrent())
+		stats["probe_changes_follows_current"]++
+	}
 	if profName == "multi" || profName == "conn" {
 		fmt.Fprintf(cw, "%d probe subsecond-write-time\n", n+1)
 		fmt.Fprintf(iw, "%d %s\n", n+1, probeSubsecondWriteTime())
@@ -1850,6 +1866,11 @@ func runL2(seed int64, n int, dir string, profName string) error {
 		fmt.Fprintf(cw, "%d probe vacuum-reclaims-every-expired-marker\n", n+1)
 		fmt.Fprintf(iw, "%d %s\n", n+1, probeVacuumReclaims())
 		stats["probe_vacuum_reclaims"]++
+		for i, kind := range []string{"version", "node"} {
+			fmt.Fprintf(cw, "%d probe vacuum-while-the-other-writers-%s-cannot-be-read\n", n+2+i, kind)
+			fmt.Fprintf(iw, "%d %s\n", n+2+i, probeVacuumUnderReadFault(kind))
+			stats["probe_vacuum_read_fault"]++
+		}
 	}
 	if profName == "tx" {
 		for k := 0; k < 3; k++ {
